@@ -104,6 +104,47 @@ Definition cap_union (acc l : list cap) : list cap :=
 Definition required_caps (mods : list module) : list cap :=
   fold_left (fun acc md => cap_union acc (m_caps md)) mods [].
 
+(* ModuleSpec objects are shared: a frozen dataclass whose `capabilities` field is an ordinary (mutable)
+   Python set, and several WiringDiagrams may hold the very same ModuleSpec.  The world of the
+   capability queries is therefore: the capabilities set of each ModuleSpec object (by index in [mods]),
+   the diagrams as lists of ModuleSpec indices (insertion order of their `modules` dicts), and the set
+   the caller was handed by the last query, which he may edit (`missing = d.required_capabilities();
+   missing -= granted`).  required_capabilities() builds `required = set()` afresh and only READS each
+   module's set (`required |= module.capabilities`): a query changes no ModuleSpec, and the set it hands
+   out is the caller's own. *)
+Definition diagram_mods (mods : list module) (d : list nat) : list module :=
+  flat_map (fun i => match nth_error mods i with Some md => [md] | None => [] end) d.
+
+Inductive capop :=
+  | QCaps (d : nat)            (* diagrams[d].required_capabilities(); the caller keeps the returned set *)
+  | QClear                     (* the caller empties the set he was handed last *)
+  | QAdd (c : cap).            (* the caller adds a capability to the set he was handed last *)
+
+Record cworld := mkCW {
+  cw_caps : list (list cap);   (* ModuleSpec.capabilities of each ModuleSpec object, as it is NOW *)
+  cw_held : list cap }.        (* the set the caller holds *)
+
+(* required_capabilities() of a diagram over the module sets as they are now *)
+Definition caps_of (cs : list (list cap)) (d : list nat) : list cap :=
+  fold_left (fun acc i => cap_union acc (nth i cs [])) d [].
+
+Definition cap_step (diagrams : list (list nat)) (w : cworld) (o : capop) : cworld * option (nat * list cap) :=
+  match o with
+  | QCaps d => let a := caps_of (cw_caps w) (nth d diagrams []) in (mkCW (cw_caps w) a, Some (d, a))
+  | QClear => (mkCW (cw_caps w) [], None)
+  | QAdd c => (mkCW (cw_caps w) (cap_union (cw_held w) [c]), None)
+  end.
+
+(* the answers of the queries of a history (diagram index, answer), and the world it leaves behind *)
+Fixpoint cap_run (diagrams : list (list nat)) (w : cworld) (ops : list capop)
+  : list (nat * list cap) * cworld :=
+  match ops with
+  | [] => ([], w)
+  | o :: rest =>
+      let r := cap_run diagrams (fst (cap_step diagrams w o)) rest in
+      (match snd (cap_step diagrams w o) with Some a => a :: fst r | None => fst r end, snd r)
+  end.
+
 (* ---------------------------------------------------------------------- *)
 (* wiring_runtime.py                                                       *)
 
@@ -445,6 +486,68 @@ Fixpoint run_ops (mods : list module) (wires : list wire) (hs : nat -> option ha
   end.
 
 (* ---------------------------------------------------------------------- *)
+(* The caller's own external_inputs mapping OBJECTS.  A caller may build a mapping {module: {port:
+   value}} once and pass the very same object to execute() again and again -- on one executor or on
+   several -- and may rewrite it himself in between.  [store]: the contents of the caller's mapping
+   objects, by index.  execute() only READS the mapping it is given: `module_inputs` is a fresh dict of
+   fresh dicts, every external value is put into it port by port (`module_inputs[m][p] =
+   _coerce_input(...)`), and wire deliveries go into `module_inputs` -- never into the caller's dicts.
+   So a call by reference ([CExecRef k]) is the execution of the contents the mapping has at that time
+   and leaves the store as it is; only the caller's own assignments ([CAssign]) change it.  After every
+   call by reference the caller looks at his mapping ([CEvStore]: what he finds there). *)
+Definition store := list extin.
+Definition st_get (st : store) (k : nat) : extin := nth k st [].
+Definition st_set (st : store) (k : nat) (e : extin) : store := set_nth st k e.
+
+Inductive cop :=
+  | COp (o : xop)                          (* as before: a mapping built for this one call *)
+  | CExecRef (k : nat) (enforce : bool)    (* execute(E_k, enforce) with the caller's k-th mapping object *)
+  | CAssign (k : nat) (ext : extin).       (* the caller himself rewrites his k-th mapping object *)
+
+Inductive cev :=
+  | CEv (e : xev)
+  | CEvStore (k : nat) (contents : extin).
+
+Fixpoint run_cops (mods : list module) (wires : list wire) (hs : nat -> option handler) (st : store)
+         (ops : list cop) : list cev :=
+  match ops with
+  | [] => []
+  | COp (XReg m h) :: rest =>
+      match register mods hs m h with
+      | Some hs' => CEv (EvReg true) :: run_cops mods wires hs' st rest
+      | None => CEv (EvReg false) :: run_cops mods wires hs st rest
+      end
+  | COp (XExec ext enforce) :: rest =>
+      CEv (EvExec hs ext enforce (execute mods wires hs enforce ext)) :: run_cops mods wires hs st rest
+  | COp XNew :: rest => CEv EvNew :: run_cops mods wires (fun _ => None) st rest
+  | CExecRef k enforce :: rest =>
+      CEv (EvExec hs (st_get st k) enforce (execute mods wires hs enforce (st_get st k)))
+      :: CEvStore k (st_get st k) :: run_cops mods wires hs st rest
+  | CAssign k ext :: rest => run_cops mods wires hs (st_set st k ext) rest
+  end.
+
+(* what the caller's mapping objects hold after a history: his own assignments, nothing else *)
+Fixpoint store_after (st : store) (ops : list cop) : store :=
+  match ops with
+  | [] => st
+  | CAssign k ext :: rest => store_after (st_set st k ext) rest
+  | _ :: rest => store_after st rest
+  end.
+
+(* the same history with every call by reference replaced by a call with a mapping built for the
+   occasion that holds what the caller last put into the object *)
+Fixpoint resolve (st : store) (ops : list cop) : list xop :=
+  match ops with
+  | [] => []
+  | COp o :: rest => o :: resolve st rest
+  | CExecRef k enforce :: rest => XExec (st_get st k) enforce :: resolve st rest
+  | CAssign k ext :: rest => resolve (st_set st k ext) rest
+  end.
+
+Definition xevs (l : list cev) : list xev :=
+  flat_map (fun e => match e with CEv x => [x] | CEvStore _ _ => [] end) l.
+
+(* ---------------------------------------------------------------------- *)
 (* scripted handlers and canonical observations for the correspondence     *)
 
 (* what a scripted handler puts under a key of the dict it returns:
@@ -500,16 +603,25 @@ Definition cm_script (c : cmodule) : hscript := let '(_, _, _, h) := c in h.
    diagram is outside the property, these cases only tie [deliver]'s per-wire runtime checks to the code;
    [] in every case the property speaks about), external inputs, enforce_static_checks of the first
    execution; then further register_module / execute calls on the same executor *)
-Inductive sop := SReg (m : nat) (s : hscript) | SExec (ext : extin) (enforce : bool) | SNew.
-Definition xops_of (l : list sop) : list xop :=
+Inductive sop := SReg (m : nat) (s : hscript) | SExec (ext : extin) (enforce : bool) | SNew
+                 | SExecRef (k : nat) (enforce : bool)      (* execute() with the caller's k-th mapping object *)
+                 | SAssign (k : nat) (ext : extin).         (* the caller rewrites that object himself *)
+Definition cops_of (l : list sop) : list cop :=
   flat_map (fun o => match o with
-                     | SReg m s => match interp_h s with Some h => [XReg m h] | None => [] end
-                     | SExec e f => [XExec e f]
-                     | SNew => [XNew]
+                     | SReg m s => match interp_h s with Some h => [COp (XReg m h)] | None => [] end
+                     | SExec e f => [COp (XExec e f)]
+                     | SNew => [COp XNew]
+                     | SExecRef k f => [CExecRef k f]
+                     | SAssign k e => [CAssign k e]
                      end) l.
 
+(* the rest of the world of a case: the caller's mapping objects (initial contents), further diagrams over
+   the same ModuleSpec objects (lists of module indices; diagram 0 is the case's own diagram, these are
+   diagrams 1, 2, ...), and the capability queries / edits made after the connects *)
+Definition world := (store * list (list nat) * list capop)%type.
+
 Definition case :=
-  (list cmodule * list wire * list wire * extin * bool * list sop)%type.
+  (list cmodule * list wire * list wire * extin * bool * list sop * world)%type.
 
 Definition zn (n : nat) : Z := Z.of_nat n.
 
@@ -554,11 +666,33 @@ Definition ev_obs (e : xev) : list (list Z) :=
   | EvExec _ _ _ res => [ (-6)%Z ] :: exec_obs res
   end.
 
+(* what the caller finds in a mapping object: per module entry its index and number of ports, per port its
+   index and the value (a TypedValue with its label and payload, anything else as its payload) *)
+Definition oval_obs (v : oval) : list Z :=
+  match v with
+  | Raw x => [0; 0; 0; x]%Z
+  | Lab t => 1%Z :: tv_obs t
+  | RawClaim _ _ x => [0; 0; 0; x]%Z
+  end.
+Definition ext_obs (e : extin) : list Z :=
+  flat_map (fun mp : nat * list (nat * oval) =>
+              zn (fst mp) :: zn (length (snd mp)) ::
+              flat_map (fun pv : nat * oval => zn (fst pv) :: oval_obs (snd pv)) (snd mp)) e.
+
+Definition cev_obs (e : cev) : list (list Z) :=
+  match e with
+  | CEv x => ev_obs x
+  | CEvStore k c => [ (-8)%Z :: zn k :: ext_obs c ]
+  end.
+
 Definition run_case (c : case) : list (list Z) :=
-  let '(cms, attempts, forced, ext, enforce, ops) := c in
+  let '(cms, attempts, forced, ext, enforce, ops, (shared, diagrams, capops)) := c in
   let mods := map cm_module cms in
   let hs := fun m => match nth_error cms m with Some cm => interp_h (cm_script cm) | None => None end in
   let wires := build mods attempts ++ forced in
+  let cr := cap_run (seq 0 (length mods) :: diagrams) (mkCW (map m_caps mods) (required_caps mods)) capops in
   [ map (fun w => cerr_code (connect_check mods w)) attempts;
     caps_obs (required_caps mods) ]
-  ++ flat_map ev_obs (run_ops mods wires hs (XExec ext enforce :: xops_of ops)).
+  ++ map (fun da : nat * list cap => (-9)%Z :: zn (fst da) :: caps_obs (snd da)) (fst cr)
+  ++ map (fun mc : nat * list cap => (-10)%Z :: zn (fst mc) :: caps_obs (snd mc)) (indexed (cw_caps (snd cr)))
+  ++ flat_map cev_obs (run_cops mods wires hs shared (COp (XExec ext enforce) :: cops_of ops)).
